@@ -122,5 +122,8 @@ class RawLinkLayer(LinkLayer):
                         self.receive_callback(m[14:])
                 except NotImplementedError as e:
                     print("Error decoding packet: " + str(e))
+                except Exception as e:  # pylint: disable=broad-exception-caught
+                    # Whatever a received frame triggers must not end the receive loop
+                    print("Error processing received packet: " + repr(e))
             except OSError:
                 break
